@@ -17,8 +17,8 @@ T = {
             'value-level routes are compositions validated by correspondence', 'Coq proof: frame + layout invariant over token-list model'),
     'C04': ('Theorems about Comments.v (claim/unclaim/shift as list surgery): every step permutes only zero-width placeholders, the subsequence of visible tokens is identical, hence printed text unchanged, for every call sequence; read-only API by snapshot monitor.',
             'getters are pure in the model; that the implementation\'s getters do not write is established by the snapshot monitor', 'Coq proof: permutation-of-placeholders invariant'),
-    'C05': ('Theorems over the generic tree model driven by descriptors re-extracted from models/generated on every run (GeneratedWf by vm_compute): the C05 statement as a predicate WF with a verified checker wf_b (sound), preserved by reattach, clone, construction (partial) and by the tree edits of TreeEdit.v at any path (through fields and into items of repeated fields): plugging a re-attached well-formed subtree, inserting an item with its separators (both placements of _insert_tokens), removing an item (both branches of _del_tokens); pop() returns a self-contained well-formed tree; C05_history: every sequence of such edits keeps HWF (hence WF); counter-lemma: without reattach the result is not WF. wf_b is evaluated on every implementation state the run dumps (parsed, edited, popped, copied, constructed) and the WF statement is monitored after every edit of seeded/focused histories over the whole API.',
-            'optional-field create/remove at tree level and batch/slice forms are covered by the token-list theorems of C03 plus per-state validation by the verified checker; hand-written classes by correspondence only', 'translator (ast, fail-closed) + Coq proof over generic tree model (WF checker sound, compositional edits) + per-state validation + WF monitor'),
+    'C05': ('Theorems over the generic tree model driven by descriptors re-extracted from models/generated on every run (GeneratedWf by vm_compute): the C05 statement as a predicate WF with a verified checker wf_b (sound), preserved by reattach, clone, construction (partial) and by the tree edits of TreeEdit.v at any path (through fields and into items of repeated fields): plugging a re-attached well-formed subtree, inserting an item with its separators (both placements of _insert_tokens), removing an item (both branches of _del_tokens), creating / removing the child of an optional field next to the pivot the extracted chain designates (left and right fields); pop() returns a self-contained well-formed tree; C05_history_all_slots: every sequence of such edits (required, optional, repeated slots) keeps HWF (hence WF); each edit kind is compared with real edits of the implementation on every run (TreeRun.check_ecase2 / check_ocase); counter-lemma: without reattach the result is not WF. wf_b is evaluated on every implementation state the run dumps (parsed, edited, popped, copied, constructed) and the WF statement is monitored after every edit of seeded/focused histories over the whole API.',
+            'batch/slice forms are sequences of the single-item edits at tree level and are covered by the token-list theorems of C03 plus per-state validation by the verified checker; hand-written classes by correspondence only', 'translator (ast, fail-closed) + Coq proof over generic tree model (WF checker sound, compositional edits) + per-state validation + WF monitor'),
     'C06': ('Partial: the re-parse statement needs the real lexer/parser (oracle) and is decided by the monitor (print, re-parse, compare content, value views and comment texts after every edit). Proved: separation of repeated-field items is preserved by every delete/insert/replace (RepeatedSep), tight fields demand nothing; formatted layouts enumerate declared fields in order; pivots are the scheme chains and are recomputed on every access (translator refuses a cached pivot).',
             'lark is an oracle; optional-field separators covered by C03 slot theorems + monitor', 'Coq proof of separation invariant + translator facts; re-parse monitor'),
     'C07': ('Theorems about Store.v, a statement-by-statement Gallina model of token_store.py (explicit handles, block indexes, caches, load factor a variable): invariant + refinement to a plain list for every operation and history and every load factor >= 2; observers equal list functions. Full-state correspondence after every step (LF 2..16) and a plain-list monitor.',
@@ -35,7 +35,7 @@ T = {
             'CPython re / str primitives as modelled; decimal/date formatting validated', 'Coq proof: codec round-trips + recognisers'),
     'C13': ('Theorems about NumExpr.v (every constructor/dunder of number_expr.py; arithmetic carrier abstract): printed text re-parses to the same tree, value = evaluation, operator results and parenthesisation, operands untouched, chains by induction.',
             'decimal arithmetic is a Section variable; lark lexer oracle', 'Coq proof: parse/print/eval over expression trees'),
-    'C14': ('Theorems about Comments.v/CommentsOwn/CommentsRestore: ownership invariant (<= 1 owner, claimed flag coherent) preserved by all six claim/unclaim calls, auto-claim sequences and node-level assignment of comments, for every history; unclaim-claim restores (surrounding: full; interleaving: partial); single-claim rule declaratively (iff); idempotence partial. Every theorem hypothesis is evaluated per trace. Monitors: ownership tables, none unowned, parse(flag)=parse+claim, idempotence, restore, hand-over histories, rule from the line layout.',
+    'C14': ('Theorems about Comments.v/CommentsOwn/CommentsRestore: ownership invariant (<= 1 owner, claimed flag coherent) preserved by all six claim/unclaim calls, auto-claim sequences and node-level assignment of comments, for every history; unclaim-claim restores (surrounding and interleaving: full, the latter under the position hypothesis claimable_b, refuted without it = known finding for appended entries); the interleaving claimer claims exactly the unclaimed comments of its range (CommentsRange/CommentsComplete: covers, frame, where the scan stops), hence no comment unowned after File.auto_claim_comments and idempotence of the File-level auto-claim without assuming everything claimed; single-claim rule declaratively (iff). Every theorem hypothesis is a boolean evaluated per trace of the implementation. Monitors: ownership tables, none unowned, parse(flag)=parse+claim, idempotence, restore, hand-over histories, rule from the line layout.',
             'whole-layout attribution rule: monitor only (known finding for posting-less transactions)', 'Coq proof: ownership invariant over histories + declarative claim rule'),
     'C15': ('Theorems about Construct.v (generic from_children over the extracted layouts): constructed node conforms, its kids are the arguments, token texts in layout order with the declared separators, WF under two checked hypotheses (partial); layouts enumerate every declared field once in order (per-run, generated classes). Re-parse equality decided by the monitor over every class with from_value x optional-argument subsets, argument read-back, root comments, File assembly; the verified WF checker runs on every constructed model.',
             'lark is an oracle; two recorded findings for comments that end up adjacent', 'translator + Coq proof of generic construction; construct-print-reparse monitor'),
